@@ -25,6 +25,9 @@ CONVERTERS = [
     [mrec("m", "http://long/common/m/", ["mm"], ["http://long/common/m#", "urn:m:"]), mrec("n", "http://long/common/n/", [], ["http://long/common/"])],
     [mrec("gr", "http://p/α/", [], ["http://é.example/ß_", "http://id/gr/"]), mrec("zh", "http://中/")],   # valid IRIs beyond ASCII
     [mrec("", "http://default/", ["dflt"], ["http://default2#"]), mrec("o", "http://other/")],             # the empty (default) CURIE prefix
+    # well-known vocabulary namespaces registered under other spellings of their usual prefixes
+    [mrec("OWL", "http://www.w3.org/2002/07/owl#", ["Owl"]), mrec("RDFS", "http://www.w3.org/2000/01/rdf-schema#"), mrec("xsd2", "http://www.w3.org/2001/XMLSchema#"),
+     mrec("x", "http://x/", [], ["http://x2/"])],
 ]
 OWL_SAMEAS = "http://www.w3.org/2002/07/owl#sameAs"
 OTHER_PRED = "http://www.w3.org/2000/01/rdf-schema#seeAlso"
@@ -54,6 +57,16 @@ def sparql(u, direction, placement, pred):
     select = "SELECT DISTINCT ?s ?o" if extra == "distinct" else "SELECT ?s ?o"
     if extra == "filter":
         pattern += f" FILTER(isIRI(?{free}))"
+    ns, _, local = pred.rpartition("#")
+    if extra == "prefixed" and pred == OWL_SAMEAS:
+        pattern = "?s owl:sameAs ?o"                               # the documented query shape: no PREFIX declaration
+    elif extra == "compact-prologue":
+        select = f"PREFIX pp:<{ns}#> BASE<http://base/> " + select   # no white space is required inside a prologue
+        pattern = f"?s pp:{local} ?o"
+    elif extra == "comment":
+        select = "# a comment line\n" + select
+    elif extra == "lowercase":
+        select = select.replace("SELECT", "select")
     if where == "inside":
         return f"{select} WHERE {{ {values} {pattern} }}"
     if where == "insideafter":   # inside the group, but written after the triple pattern
@@ -314,6 +327,34 @@ def check_predicates(ctx=None):
                     if got != want:
                         kind = "answers-over-a-predicate-that-is-not-configured" if not want else "no-answer-over-a-configured-predicate"
                         fails.append((f"sparql/{kind}", f"graph configured with predicates={config!r}: {q} -> {sorted(got)}, expected {sorted(want)}"))
+    # the configured predicates are the graph's own: collections handed in (or handed out) may change afterwards
+    import rdflib
+
+    for kind_ in ("set-of-URIRef", "list", "set-of-str"):
+        mine = {"set-of-URIRef": {rdflib.URIRef(OWL_SAMEAS)}, "list": [OWL_SAMEAS], "set-of-str": {OWL_SAMEAS}}[kind_]
+        conv = Converter([to_record(r) for r in CONVERTERS[0]])
+        g1 = MappingServiceGraph(converter=conv, predicates=mine)
+        g2 = MappingServiceGraph(converter=conv, predicates=g1.query_predicates)
+        try:
+            g2.query_predicates.add(rdflib.URIRef(SKOS))
+        except AttributeError:
+            pass
+        if isinstance(mine, set):
+            mine.add(rdflib.URIRef(OTHER_PRED) if kind_ == "set-of-URIRef" else OTHER_PRED)
+        else:
+            mine.append(OTHER_PRED)
+        for step in ("after-additions", "after-clear"):
+            if step == "after-clear":
+                mine.clear()
+            for pred in (OWL_SAMEAS, SKOS, OTHER_PRED):
+                q = sparql(u, "s", "after", pred)
+                got = {str(r.o) for r in g1.query(q, processor=MappingServiceSPARQLProcessor(graph=g1))}
+                want = expected(model, u, OWL_SAMEAS) if pred == OWL_SAMEAS else set()
+                if ctx is not None:
+                    ctx.count("transitions")
+                    ctx.count("predicate_aliasing_checks")
+                if got != want:
+                    fails.append(("sparql/configured-predicates-follow-a-collection-changed-later", f"graph built from a {kind_} that was changed later ({step}): {q} -> {sorted(got)}, expected {sorted(want)}"))
     return fails
 
 
@@ -344,7 +385,7 @@ def run_unit(unit, ctx):
         ctx.state(hash(("svc", ci)))
         for u in unit["uris"]:
             for direction in ("s", "o"):
-                for placement in ("inside", "after", "insideafter", "inside+filter", "after+filter", "after+distinct"):
+                for placement in ("inside", "after", "insideafter", "inside+filter", "after+filter", "after+distinct", "after+prefixed", "inside+compact-prologue", "after+comment", "inside+lowercase"):
                     for pred in (OWL_SAMEAS, OTHER_PRED):
                         fails = check_query(ci, u, direction, placement, pred, ctx=ctx)
                         case = {"kind": "sparql", "conv": ci, "uri": u, "direction": direction, "placement": placement, "pred": pred}
